@@ -795,6 +795,15 @@ func diffDumps(a, b *Dump) []map[string]interface{} {
 		return out
 	}
 	cmp("pfcount", pfk(a), pfk(b), func(d *Dump, k string) (interface{}, bool) { v, ok := d.PF[k]; return v, ok })
+	ck := func(d *Dump) []string {
+		var out []string
+		for k := range d.Card {
+			out = append(out, k)
+		}
+		sort.Strings(out)
+		return out
+	}
+	cmp("cardinality", ck(a), ck(b), func(d *Dump, k string) (interface{}, bool) { v, ok := d.Card[k]; return v, ok })
 	return out
 }
 
